@@ -36,7 +36,7 @@ pub fn gen(rng: &mut Rng, n: usize, out: &mut Vec<String>) {
             0 | 1 => {
                 let amt: u64 = match rng.below(6) { 0 => 1, 1 => rng.below(1000) + 1, 2 => rng.u64_mixed(), 3 => 1_000_000 * (1 + rng.below(1_000_000)), 4 => u64::MAX, _ => rng.below(1u64 << 50) };
                 let (ap, lp) = (gen_price_bits(rng), gen_price_bits(rng));
-                let (da, dl) = (*rng.pick(&[0u8, 2, 5, 6, 8, 9, 12, 23, 24]), *rng.pick(&[0u8, 2, 5, 6, 8, 9, 12, 23]));
+                let (da, dl) = (rng.dec_wide(&[0u8, 2, 5, 6, 8, 9, 12, 23, 24], 1), rng.dec_wide(&[0u8, 2, 5, 6, 8, 9, 12, 23], 0));
                 let r = catch_unwind(AssertUnwindSafe(|| -> Result<(i128, i128, u64, i128), anchor_lang::error::Error> {
                     let asset_amount = I80F48::from_num(amt);
                     let (asset_price, liab_price) = (I80F48::from_bits(ap), I80F48::from_bits(lp));
@@ -59,7 +59,7 @@ pub fn gen(rng: &mut Rng, n: usize, out: &mut Vec<String>) {
             2 => {
                 let amount = match rng.below(4) { 0 => 0, 1 => rng.fx_bits().checked_abs().unwrap_or(i128::MAX), 2 => (rng.u64_mixed() as i128) * ONE, _ => rng.below(1u64 << 62) as i128 };
                 let price = gen_price_bits(rng);
-                let d = *rng.pick(&[0u8, 6, 9, 18, 23, 24, 30]);
+                let d = rng.dec_wide(&[0u8, 6, 9, 18, 23, 24, 30], 2);
                 let w: i128 = match rng.below(4) { 0 => -1, 1 => ONE, 2 => rng.below(2 * ONE as u64) as i128, _ => rng.fx_bits().checked_abs().unwrap_or(i128::MAX) };
                 let r = catch_unwind(AssertUnwindSafe(|| calc_value(I80F48::from_bits(amount), I80F48::from_bits(price), d, if w < 0 { None } else { Some(I80F48::from_bits(w)) })));
                 let o = match r { Err(_) => "panic".to_string(), Ok(Ok(v)) => format!("ok {}", v.to_bits()), Ok(Err(e)) => code(e) };
@@ -68,7 +68,7 @@ pub fn gen(rng: &mut Rng, n: usize, out: &mut Vec<String>) {
             _ => {
                 let value = match rng.below(3) { 0 => 0, 1 => rng.fx_bits().checked_abs().unwrap_or(i128::MAX), _ => (rng.u64_mixed() as i128) * ONE };
                 let price = gen_price_bits(rng);
-                let d = *rng.pick(&[0u8, 6, 9, 18, 23, 24]);
+                let d = rng.dec_wide(&[0u8, 6, 9, 18, 23, 24], 2);
                 let r = catch_unwind(AssertUnwindSafe(|| calc_amount(I80F48::from_bits(value), I80F48::from_bits(price), d)));
                 let o = match r { Err(_) => "panic".to_string(), Ok(Ok(v)) => format!("ok {}", v.to_bits()), Ok(Err(e)) => code(e) };
                 out.push(format!("liq.amount {} {} {} => {}", value, price, d, o));
